@@ -489,6 +489,11 @@ func c15ArgsLoader(c *core.Ctx, r *core.Report) {
 		}
 	}
 	r.Check(bad == "", "C15.R7", "args-loader@"+core.FnName(fn), c.FnPos(fn), fmt.Sprintf("every --app.config=key=value argument, and nothing else, becomes key -> parsed value (split at the first '=') of the returned document; no such argument yields no document; errors propagate (%d abstract runs) %s", runs, bad))
+	loaderIdentityRules(c, r, "C15.R8")
+}
+
+// loaderIdentityRules: file and raw loaders hand back exactly what they were given, reported under rule.
+func loaderIdentityRules(c *core.Ctx, r *core.Report, rule string) {
 	// R8 file and raw loaders hand back exactly what they were given
 	if fl := c.Named("configure/loader", "FileLoader"); fl != nil {
 		if m := c.DeclaredMethod(fl, "LoadConfig"); m != nil {
@@ -510,7 +515,7 @@ func c15ArgsLoader(c *core.Ctx, r *core.Report) {
 					ok = isRecv && okRet && (u.Class == core.ErrTested || u.Class == core.ErrReturned)
 				}
 			}
-			r.Check(ok, "C15.R8", "file-loader@"+core.FnName(m), c.FnPos(m), "the file loader returns the bytes of the file named by the loader itself; a read error propagates")
+			r.Check(ok, rule, "file-loader@"+core.FnName(m), c.FnPos(m), "the file loader returns the bytes of the file named by the loader itself; a read error propagates")
 		}
 	}
 	if rl := c.Named("configure/loader", "RawLoader"); rl != nil {
@@ -525,7 +530,7 @@ func c15ArgsLoader(c *core.Ctx, r *core.Report) {
 					ok = false
 				}
 			}
-			r.Check(ok, "C15.R8", "raw-loader@"+core.FnName(m), c.FnPos(m), "the raw loader returns its own bytes")
+			r.Check(ok, rule, "raw-loader@"+core.FnName(m), c.FnPos(m), "the raw loader returns its own bytes")
 		}
 	}
 }
